@@ -12,7 +12,7 @@ import mmap as _real_mmap
 import os as _real_os
 import posixpath
 
-from whoosim.kernel import SimKilled, HarnessError
+from whoosim.kernel import SimKilled, HarnessError, _FD_COUNTER
 
 O_RDONLY = _real_os.O_RDONLY
 O_WRONLY = _real_os.O_WRONLY
@@ -421,8 +421,7 @@ class SimOS(object):
             ino.data = b""
             ino.mtime = self.kernel.time()
         ofd = OFD(ino, readable, writable, bool(flags & O_APPEND), proc, path)
-        fd = proc.next_fd
-        proc.next_fd += 1
+        fd = next(_FD_COUNTER)
         proc.fds[fd] = ofd
         return fd, ofd
 
